@@ -30,6 +30,10 @@ class C13(PropBase):
             mixed = list(clean)
             jl = junk_lines(rng)
             nonutf_before_valid = False
+            if c % 3 == 0:
+                # the very first bytes of the stream look like another protocol (Beast binary escape + type, BOM, gzip, HTTP, JSON, SBS)
+                mixed.insert(0, rng.choice([b"\x1a1\x00\x01", b"\x1a2abc", b"\x1a3\xff\xff", b"\x1a4", b"\xef\xbb\xbf", b"\x1f\x8b\x08", b"GET / HTTP/1.1",
+                                            b"{\"now\":1}", b"MSG,3,1,1", b"#", b"\x00\x00"]))
             for _ in range(rng.randrange(1, 15)):
                 j = rng.choice(jl)
                 pos = rng.randrange(len(mixed) + 1)
